@@ -47,6 +47,7 @@ type c26Config struct {
 	permcache int
 	tempcache int
 	reloaded  bool
+	permbatch int // LeveldbPermanent.batchlimit (0: default 333)
 }
 
 type c26Pair struct {
@@ -75,6 +76,10 @@ func (x *c26Pair) openLeveldb() {
 	vfMust(err)
 
 	x.lperm = perm
+
+	if x.cfg.permbatch > 0 {
+		perm.batchlimit = x.cfg.permbatch
+	}
 }
 
 func (x *c26Pair) openRedis() {
@@ -369,14 +374,14 @@ func TestVerifC26(t *testing.T) {
 	maxblocks := vlib.Pick(r, 3, 4)
 
 	configs := []c26Config{
-		{name: "nocache", permcache: 0, tempcache: 0},
-		{name: "cache", permcache: 16, tempcache: 16},
+		{name: "nocache-batch2", permcache: 0, tempcache: 0, permbatch: 2},
+		{name: "cache-batch3", permcache: 16, tempcache: 16, permbatch: 3},
 		{name: "permcache-only", permcache: 16, tempcache: 0},
 		{name: "nocache-reloaded-temp", permcache: 0, tempcache: 0, reloaded: true},
 		{name: "cache-reloaded-temp", permcache: 16, tempcache: 16, reloaded: true},
 	}
 
-	r.Rule("every history over {merge the next block of kind S/F/P/O (genesis G first) into both permanent databases, reopen both} up to the stated depth with at most the stated number of blocks, for each of 5 cache/temp configurations; " +
+	r.Rule("every history over {merge the next block of kind S/F/P/O (genesis G first) into both permanent databases, reopen both} up to the stated depth with at most the stated number of blocks, for each of 5 cache/temp configurations (in two of them the leveldb permanent database merges in batches of 2 / 3 keys); " +
 		"after every event every PermanentDatabase read over the full query domain (heights 0..bound+1, suffrage heights 0..bound+1, 5 state keys, every operation/fact hash of every merged block + an unknown one) on both, compared part by part; " +
 		"each history is one state (no merging); non-trivial = at least two merged blocks")
 	r.Assume("miniredis v2.33.0 answers SET/GET/EXISTS/ZADD NX/ZRANGE BYLEX REV LIMIT like a Redis server; the go-redis client is trusted")
